@@ -392,15 +392,13 @@ Proof.
   - rewrite Hs. cbn [bind]. exists w. auto.
 Qed.
 
-Theorem fxp_prod_exact_any f l r o : 1 <= nw f -> (1 <= length l)%nat -> Forall (in_range f) l ->
-  exists w, fxp_prod f (Z.of_nat (length l)) l r o = Ok (prod_fmt f (Z.of_nat (length l)), w) /\
-    w_codes w = [zprod l] /\ w_ovf w = false /\ w_unf w = false.
+(* the accumulated product handed on by fxp_prod: exact, whether NumPy accumulates in int64 / uint64 or in Python integers *)
+Lemma prod_sel_exact f l : 1 <= nw f -> (1 <= length l)%nat -> Forall (in_range f) l ->
+  (if 64 <=? Z.of_nat (length l) * nw f then prod_py l else prod_i64 (sg f) l) = zprod l.
 Proof.
-  intros Hw Hne Hr. pose proof (prod_in_range f l Hw Hne Hr) as Hin.
-  set (n := Z.of_nat (length l)) in *. assert (Hn: 1 <= n) by (unfold n; lia).
-  unfold fxp_prod. cbv zeta.
-  assert (Hsel: (if 64 <=? nw (prod_fmt f n) then prod_py l else prod_i64 (sg f) l) = zprod l).
-  { cbn [prod_fmt nw]. destruct (64 <=? n * nw f) eqn:E; [apply prod_py_zprod|].
+  intros Hw Hne Hr. set (n := Z.of_nat (length l)) in *. assert (Hn: 1 <= n) by (unfold n; lia).
+  change (if 64 <=? n * nw f then prod_py l else prod_i64 (sg f) l) with (if 64 <=? nw (prod_fmt f n) then prod_py l else prod_i64 (sg f) l).
+  cbn [prod_fmt nw]. destruct (64 <=? n * nw f) eqn:E; [apply prod_py_zprod|].
     unfold prod_i64. assert (P1: 1 <= 2^(nw f)) by (assert (0 < 2^(nw f)) by (apply pow2_pos; lia); lia).
     destruct (sg f) eqn:Es.
     - (* signed: |c| <= 2^(nw-1), the running product stays below 2^(n*(nw-1)) <= 2^62 *)
@@ -424,7 +422,17 @@ Proof.
         unfold acc_wrap. rewrite wrap_u64_small by lia. rewrite IH; [ring|exact (Forall_inv_tail Hl')|exact H0|exact Hac]. }
       rewrite Hgen; [lia| |lia|].
       + eapply Forall_impl; [|exact Hr]. intros c Hc. unfold in_range, cmin, cmax in Hc. rewrite Es in Hc. lia.
-      + fold n. rewrite pow2_pow by lia. rewrite Z.mul_1_l. apply pow2_le. nia. }
+      + fold n. rewrite pow2_pow by lia. rewrite Z.mul_1_l. apply pow2_le. nia.
+Qed.
+
+Theorem fxp_prod_exact_any f l r o : 1 <= nw f -> (1 <= length l)%nat -> Forall (in_range f) l ->
+  exists w, fxp_prod f (Z.of_nat (length l)) l r o = Ok (prod_fmt f (Z.of_nat (length l)), w) /\
+    w_codes w = [zprod l] /\ w_ovf w = false /\ w_unf w = false.
+Proof.
+  intros Hw Hne Hr. pose proof (prod_in_range f l Hw Hne Hr) as Hin.
+  set (n := Z.of_nat (length l)) in *. assert (Hn: 1 <= n) by (unfold n; lia).
+  unfold fxp_prod. cbv zeta.
+  assert (Hsel: (if 64 <=? nw (prod_fmt f n) then prod_py l else prod_i64 (sg f) l) = zprod l) by (exact (prod_sel_exact f l Hw Hne Hr)).
   rewrite Hsel.
   destruct (reduce_store_exact_any (prod_fmt f n) r o [zprod l]) as (w & Hs & Hcodes & Ho & Hu).
   - unfold prod_fmt. cbn [nw]. nia.
